@@ -557,8 +557,7 @@ func (c *concWorld) verdict(init []kvp) {
 		s.Probe("porcupine-unknown")
 		return
 	}
-	// name the violation: the first call (by return) at which the history stops being explainable, and
-	// the kinds of writes of other clients that were in flight during it
+	// name the violation: the first call (by return) at which the history stops being explainable
 	sort.SliceStable(done, func(i, j int) bool { return done[i].ret < done[j].ret })
 	wit := done[len(done)-1]
 	for _, h := range done {
@@ -567,29 +566,21 @@ func (c *concWorld) verdict(init []kvp) {
 			break
 		}
 	}
+	// the signature names only the call that completes the contradiction (a handful of values); the calls
+	// of other clients that were in flight during it go into the detail
 	var during []string
 	for _, x := range done {
-		if x.client != wit.client && (x.in.write() || x.in.kind == mClose) && x.call < wit.ret && wit.call < x.ret {
-			during = append(during, x.in.name)
+		if x.client != wit.client && x.call < wit.ret && wit.call < x.ret {
+			during = append(during, fmt.Sprintf("client%d %s", x.client, x.in.name))
 		}
 	}
-	sort.Strings(during)
-	var uniq []string
-	for i, x := range during {
-		if i == 0 || x != during[i-1] {
-			uniq = append(uniq, x)
-		}
-	}
-	sig := wit.in.name + "-alone"
-	if len(uniq) > 0 {
-		sig = wit.in.name + "-during-" + strings.Join(uniq, "+")
-	}
+	sig := wit.in.name
 	var b strings.Builder
 	for _, h := range done {
 		fmt.Fprintf(&b, "\n  client%d [%d,%d] %s", h.client, h.call, h.ret, describe(h.in, h.out))
 	}
-	s.Fail("linearizability", sig, "no sequential order of the ordered-map model explains the history once client%d's %s [%d,%d] has returned; initial %s; history by return:%s",
-		wit.client, describe(wit.in, wit.out), wit.call, wit.ret, fmtEntries(init), b.String())
+	s.Fail("linearizability", sig, "no sequential order of the ordered-map model explains the history once client%d's %s [%d,%d] has returned (in flight during it: %s); initial %s; history by return:%s",
+		wit.client, describe(wit.in, wit.out), wit.call, wit.ret, strings.Join(during, ", "), fmtEntries(init), b.String())
 }
 
 // check runs porcupine on the calls that returned by time upto; writes in flight at that time are kept
